@@ -369,8 +369,14 @@ func checkEnvelope(data []byte, expectedType msgType) ([]byte, error) {
 		return nil, fmt.Errorf("unknown envelope protocol: %v", data[4])
 	}
 
+	// HeaderLen is the offset of the payload. It cannot point into the fixed
+	// part of the header or past the end of the data.
+	headerLen := int(data[5])
+	if headerLen < envelopeMinHeaderLen || headerLen > len(data) {
+		return nil, fmt.Errorf("invalid envelope header length: %d", headerLen)
+	}
+
 	var (
-		headerLen  = int(data[5])
 		flags      = data[6]
 		actualType = msgType(data[7])
 		payload    = data[headerLen:]
